@@ -265,6 +265,48 @@ impl Placed {
     fn get(&self) -> &[u8] { &bytemuck::cast_slice::<u64, u8>(&self.buf[..])[self.off..self.off + self.len] }
 }
 
+fn run_tokget(data: &[u8], out: &mut RunOut, line: &str) {
+    use spl_generic_token::token::{GenericTokenAccount, GenericTokenMint};
+    fn o<T>(r: Option<Option<T>>, f: impl Fn(T) -> String) -> String { match r { None => "panic".into(), Some(None) => "~".into(), Some(Some(x)) => f(x) } }
+    macro_rules! five { ($A:ty, $M:ty) => { format!("{}:{}:{}:{}:{}",
+        o(guarded(|| <$A>::unpack_account_mint(data).copied()), |k| hex(k.as_ref())),
+        o(guarded(|| <$A>::unpack_account_owner(data).copied()), |k| hex(k.as_ref())),
+        o(guarded(|| <$A>::unpack_account_amount(data)), |n| n.to_string()),
+        o(guarded(|| <$M>::unpack_mint_supply(data)), |n| n.to_string()),
+        o(guarded(|| <$M>::unpack_mint_decimals(data)), |n| n.to_string())) } }
+    let s = format!("T={} X={}", five!(spl_generic_token::token::Account, spl_generic_token::token::Mint),
+        five!(spl_generic_token::token_2022::Account, spl_generic_token::token_2022::Mint));
+    let err = if s.contains("panic") { Some("a trait-level checked getter panicked".to_string()) } else { None };
+    out.stats.bump("tokget");
+    if data.len() == 82 || data.len() >= 165 { out.stats.nontrivial_case(line); }
+    out.push(s, err.map_or(Ok(()), Err));
+}
+
+/// A buffer of `len` bytes given by its first 166 bytes, placed `off` bytes past an aligned address.  Up to 1 MiB the
+/// remainder is pseudo-random (derived from the head, so a replay rebuilds it); larger ones are lazily mapped zero
+/// pages from `alloc_zeroed`, so that 10 MiB (the largest account) and 4 GiB (where a 32-bit length wraps) cost
+/// nothing, and a machine that cannot map them skips the case instead of aborting.
+struct BigBuf { ptr: *mut u8, layout: std::alloc::Layout, off: usize, len: usize }
+impl BigBuf {
+    fn new(len: usize, head: &[u8], off: usize) -> Option<BigBuf> {
+        assert!(head.len() == 166 && len >= 357);
+        let layout = std::alloc::Layout::from_size_align(len + 16, 8).ok()?;
+        let ptr = unsafe { std::alloc::alloc_zeroed(layout) };
+        if ptr.is_null() { return None; }
+        let b = BigBuf { ptr, layout, off, len };
+        let s: &mut [u8] = unsafe { std::slice::from_raw_parts_mut(ptr.add(off), len) };
+        s[..166].copy_from_slice(head);
+        if len <= 1 << 20 && head.iter().map(|&x| x as usize).sum::<usize>() % 2 == 1 {
+            let mut x = 0x9E3779B97F4A7C15u64 ^ (len as u64);
+            for h in head { x = x.wrapping_mul(6364136223846793005).wrapping_add(*h as u64); }
+            for c in s[166..].iter_mut() { x ^= x << 13; x ^= x >> 7; x ^= x << 17; *c = x as u8; }
+        }
+        Some(b)
+    }
+    fn get(&self) -> &[u8] { unsafe { std::slice::from_raw_parts(self.ptr.add(self.off), self.len) } }
+}
+impl Drop for BigBuf { fn drop(&mut self) { unsafe { std::alloc::dealloc(self.ptr, self.layout) } } }
+
 pub fn run(_prop: &str, cases: &[String]) -> RunOut {
     let mut out = RunOut::default();
     for (k, line) in cases.iter().enumerate() {
@@ -274,23 +316,24 @@ pub fn run(_prop: &str, cases: &[String]) -> RunOut {
         match t[0] {
             "tok" => { let p = Placed::new(&unhex(t[1]), off); out.stats.bump(&format!("align:{off}")); run_tok(p.get(), &unhex(t[2]), &mut out, line) }
             "tokref" => { let p = Placed::new(&unhex(t[1]), off); run_tokref(p.get(), &mut out, line) }
-            "tokget" => {
-                use spl_generic_token::token::{GenericTokenAccount, GenericTokenMint};
-                let placed = Placed::new(&unhex(t[1]), off);
-                let data: &[u8] = placed.get();
-                fn o<T>(r: Option<Option<T>>, f: impl Fn(T) -> String) -> String { match r { None => "panic".into(), Some(None) => "~".into(), Some(Some(x)) => f(x) } }
-                macro_rules! five { ($A:ty, $M:ty) => { format!("{}:{}:{}:{}:{}",
-                    o(guarded(|| <$A>::unpack_account_mint(data).copied()), |k| hex(k.as_ref())),
-                    o(guarded(|| <$A>::unpack_account_owner(data).copied()), |k| hex(k.as_ref())),
-                    o(guarded(|| <$A>::unpack_account_amount(data)), |n| n.to_string()),
-                    o(guarded(|| <$M>::unpack_mint_supply(data)), |n| n.to_string()),
-                    o(guarded(|| <$M>::unpack_mint_decimals(data)), |n| n.to_string())) } }
-                let s = format!("T={} X={}", five!(spl_generic_token::token::Account, spl_generic_token::token::Mint),
-                    five!(spl_generic_token::token_2022::Account, spl_generic_token::token_2022::Mint));
-                let err = if s.contains("panic") { Some("a trait-level checked getter panicked".to_string()) } else { None };
-                out.stats.bump("tokget");
-                if data.len() == 82 || data.len() >= 165 { out.stats.nontrivial_case(line); }
-                out.push(s, err.map_or(Ok(()), Err));
+            "tokget" => { let placed = Placed::new(&unhex(t[1]), off); run_tokget(placed.get(), &mut out, line) }
+            // long buffers: `<len> <first 166 bytes> [<program id>]`, the rest filled from the case text (zeros past 1 MiB)
+            "tokbig" | "tokgetbig" | "tokrefbig" => {
+                let len: usize = t[1].parse().unwrap();
+                match BigBuf::new(len, &unhex(t[2]), off) {
+                    None => {
+                        out.stats.bump("big:skipped");
+                        out.push("skipped-no-room".into(), Ok(()));
+                    }
+                    Some(b) => {
+                        out.stats.bump(&format!("biglen:{}", match len { l if l >= 1 << 32 => ">=4GiB", l if l > 10 << 20 => ">10MiB", l if l >= 65536 => ">=64KiB", l if l > 10405 => ">10405", _ => "<=10405" }));
+                        match t[0] {
+                            "tokbig" => run_tok(b.get(), &unhex(t[3]), &mut out, line),
+                            "tokgetbig" => run_tokget(b.get(), &mut out, line),
+                            _ => run_tokref(b.get(), &mut out, line),
+                        }
+                    }
+                }
             }
             "tokconst" => {
                 // the public constants and id helpers, compared with the regenerated model constants
@@ -324,7 +367,40 @@ pub fn run(_prop: &str, cases: &[String]) -> RunOut {
 }
 
 pub const CONST_CASE: &str = "tokconst";
-const LENS: &[usize] = &[0, 1, 44, 45, 46, 72, 81, 82, 83, 107, 108, 109, 164, 165, 166, 167, 248, 354, 355, 356];
+const LENS: &[usize] = &[0, 1, 44, 45, 46, 72, 81, 82, 83, 107, 108, 109, 164, 165, 166, 167, 248, 338, 354, 355, 356, 357, 421, 611];
+/// lengths a truncating cast, a size cap or a realloc bound would treat specially: base lengths modulo 2^16 / 2^24 /
+/// 2^32, the 10 KiB realloc increment past the base account, the 10 MiB account limit
+const BIG_LENS: &[usize] = &[1000, 10_240, 10_405, 10_406, 10_487, 65_535, 65_536, 65_536 + 82, 65_536 + 165, 65_536 + 166, 65_536 + 355,
+    2 * 65_536 + 165, 2 * 65_536 + 82, 1 << 20, (1 << 24) + 165, (1 << 24) + 82, 10 << 20, (10 << 20) + 1,
+    (1 << 32) + 82, (1 << 32) + 165, (1 << 32) + 166, (1 << 32) + 355, (1 << 32) + 1000];
+
+/// the first 166 bytes of a long buffer: a packed account or mint (padded), marker byte at 165, or arbitrary bytes
+fn gen_head(rng: &mut Rng) -> Vec<u8> {
+    let mut h = match rng.below(4) {
+        0 => { let mut d = packed_account(rng); d.push(if rng.chance(3, 4) { 2 } else { interesting_byte(rng) }); d }
+        1 => { let mut d = packed_mint(rng); d.extend(vec![0u8; 83]); d.push(if rng.chance(3, 4) { 1 } else { interesting_byte(rng) }); d }
+        2 => { let mut d = vec![0u8; 166]; for off in [45usize, 108, 165] { d[off] = interesting_byte(rng); } d }
+        _ => { let mut d = rng.bytes(166); for off in [45usize, 108, 165] { d[off] = interesting_byte(rng); } d }
+    };
+    h.truncate(166);
+    h
+}
+fn big_cases(kind: &str, per_len: usize, rng: &mut Rng) -> Vec<String> {
+    let mut v = vec![];
+    for &len in BIG_LENS {
+        for _ in 0..per_len {
+            let h = gen_head(rng);
+            match kind {
+                "tokbig" => {
+                    for p in [token_id().to_bytes(), token22_id().to_bytes()] { v.push(format!("tokbig {len} {} {}", hex(&h), hex(&p))); }
+                    v.push(format!("tokgetbig {len} {}", hex(&h)));
+                }
+                _ => v.push(format!("tokrefbig {len} {}", hex(&h))),
+            }
+        }
+    }
+    v
+}
 
 fn interesting_byte(rng: &mut Rng) -> u8 {
     match rng.below(6) {
@@ -403,6 +479,7 @@ pub fn generate_c17(tier: &str, rng: &mut Rng) -> Vec<String> {
             }
         }
     }
+    v.extend(big_cases("tokbig", if tier == "thorough" { 12 } else { 2 }, rng));
     for _ in 0..n {
         let d = gen_buffer(rng);
         let p = gen_prog(rng);
@@ -512,6 +589,7 @@ fn real_extended_mint(rng: &mut Rng) -> Vec<u8> {
 pub fn generate_c16(tier: &str, rng: &mut Rng) -> Vec<String> {
     let n = if tier == "thorough" { 400_000 } else { 4_000 };
     let mut v = vec![CONST_CASE.to_string(), format!("tokref {}", hex(&spl_generic_token::token::native_mint::ACCOUNT_DATA))];
+    v.extend(big_cases("tokrefbig", if tier == "thorough" { 12 } else { 2 }, rng));
     for _ in 0..n {
         let mut d = match rng.below(8) {
             0 => packed_account(rng),
